@@ -42,6 +42,102 @@ func (c *Coll) Txn(t string, body func(x *Tx) error) error {
 	return err
 }
 
+// ---- the collection's one-call shortcuts (each wraps a whole transaction) ---------------------
+
+// ShortInsert inserts one row through Collection.Insert. The events a transaction logs after its body
+// (commitstart) are logged at the end of the insert callback: nothing but the commit follows it.
+func (c *Coll) ShortInsert(t string, ws []W, fail bool) (uint32, error) {
+	tr := c.W.T
+	tr.Log(Ev{"e": "begin", "t": t, "c": c.Name})
+	var at uint32
+	got, err := c.C.Insert(func(r column.Row) error {
+		at = r.Index()
+		c.W.Track(at)
+		tr.Log(Ev{"e": "reserve", "t": t, "o": int(at)})
+		for _, w := range ws {
+			d, _ := c.Desc(w.Col)
+			c.Write(t, r, d, w.K, w.V)
+		}
+		if fail {
+			return ErrFail
+		}
+		tr.Log(Ev{"e": "commitstart", "t": t})
+		return nil
+	})
+	if err != nil {
+		tr.Log(Ev{"e": "insfail", "t": t, "o": int(at)})
+		tr.Log(Ev{"e": "rollback", "t": t, "fired": c.takeFired()})
+	} else if got != at {
+		tr.Log(Ev{"e": "mismatch", "what": "Collection.Insert returned another offset than Row.Index inside the callback", "got": int(got), "o": int(at)})
+	}
+	if (err != nil) != fail {
+		tr.Log(Ev{"e": "mismatch", "what": "Collection.Insert: error returned iff the callback failed", "err": err != nil, "fail": fail})
+	}
+	return at, err
+}
+
+// ShortAt writes (and reads) one row through Collection.QueryAt; fail makes the callback return an error.
+func (c *Coll) ShortAt(t string, o uint32, ws []W, read bool, flavor int, fail bool) {
+	tr := c.W.T
+	c.W.Track(o)
+	tr.Log(Ev{"e": "begin", "t": t, "c": c.Name})
+	err := c.C.QueryAt(o, func(r column.Row) error {
+		if read && flavor != 1 {
+			vals := Ev{}
+			for _, d := range c.Cols {
+				vals[d.Name] = c.ReadRow(nil, r, d, flavor)
+			}
+			tr.Log(Ev{"e": "read", "t": t, "o": int(o), "vals": vals})
+		}
+		for _, w := range ws {
+			d, _ := c.Desc(w.Col)
+			c.Write(t, r, d, w.K, w.V)
+		}
+		if fail {
+			return ErrFail
+		}
+		tr.Log(Ev{"e": "commitstart", "t": t})
+		return nil
+	})
+	if err != nil {
+		tr.Log(Ev{"e": "rollback", "t": t, "fired": c.takeFired()})
+	}
+	if (err != nil) != fail {
+		tr.Log(Ev{"e": "mismatch", "what": "Collection.QueryAt: error returned iff the callback failed", "err": err != nil, "fail": fail})
+	}
+}
+
+// ShortDelete deletes one row through Collection.DeleteAt. The call gives no chance to log between the decision and
+// the commit, so the decision (is the offset in the selection the transaction takes right now?) is observed from a
+// transaction of its own just before, logged, and compared with what the call returns.
+func (c *Coll) ShortDelete(t string, o uint32) bool {
+	tr := c.W.T
+	c.W.Track(o)
+	tr.Log(Ev{"e": "begin", "t": t, "c": c.Name})
+	var offs []uint32
+	in := false
+	c.C.Query(func(t2 *column.Txn) error {
+		t2.Range(func(idx uint32) {
+			offs = append(offs, idx)
+			in = in || idx == o
+		})
+		return nil
+	})
+	rows, filler := c.W.runs(offs)
+	tr.Log(Ev{"e": "sel", "t": t, "rows": rows, "filler": filler})
+	if in {
+		tr.Log(Ev{"e": "del", "t": t, "o": int(o)})
+	} else {
+		tr.Log(Ev{"e": "delmiss", "t": t, "o": int(o)})
+	}
+	tr.Log(Ev{"e": "commitstart", "t": t})
+	got := c.C.DeleteAt(o)
+	if got != in {
+		tr.Log(Ev{"e": "mismatch", "what": "Collection.DeleteAt: true iff the row was there", "got": got, "want": in})
+	}
+	return got
+}
+
 // runs splits sorted offsets into individually tracked ones and maximal runs of untracked ones.
 func (w *World) runs(offs []uint32) (rows []int, filler [][2]int) {
 	rows = []int{}
